@@ -13,7 +13,7 @@ EXTRA = {"C02-mutant-a": ["C05"], "C02-mutant-b": ["C15"], "C03-mutant-a": ["C10
          "C10-mutant-a": ["C03"], "C10-mutant-b": ["C13"], "C14-mutant-b": ["C13"], "C15-mutant-b": ["C12"], "C17-mutant-a": ["C08"], "C17-mutant-b": ["C14"],
          "C20-mutant-b": ["C16"], "C07-mutant-a": ["C06"], "C01-mutant-b": ["C04"], "C04-mutant-a": ["C01"]}
 RACE_DEMO = {"C16-mutant-b"}
-REBASED = {"C01-mutant-b": "/tmp/rebased/C01-mutant-b/patch.diff", "C04-mutant-a": "/tmp/rebased/C04-mutant-a/patch.diff"}
+REBASED = {"C01-mutant-a": "/tmp/rebased/C01-mutant-a/patch.diff", "C01-mutant-b": "/tmp/rebased/C01-mutant-b/patch.diff", "C04-mutant-a": "/tmp/rebased/C04-mutant-a/patch.diff"}
 
 ROUND = os.environ.get("SEED_ROUND", "")
 if ROUND == "r2":
@@ -24,7 +24,7 @@ if ROUND == "r2":
              "C17-mutant-a": ["C13", "C14"], "C09-mutant-a": ["C03"], "C09-mutant-b": ["C18"], "C10-mutant-a": ["C13"], "C15-mutant-b": ["C02"], "C02-mutant-a": ["C15", "C05"], "C02-mutant-b": ["C15", "C19"],
              "C06-mutant-b": ["C19"], "C11-mutant-a": ["C06"], "C11-mutant-b": ["C06"], "C14-mutant-a": ["C08"], "C14-mutant-b": ["C08"], "C01-mutant-a": ["C15", "C04"], "C01-mutant-b": ["C15", "C19"], "C19-mutant-a": ["C06", "C07"], "C19-mutant-b": ["C05"]}
     RACE_DEMO = set()
-    REBASED = {}
+    REBASED = {"C03-mutant-b": "/tmp/rebased/C03-r2-mutant-b/patch.diff"}
 
 def sh(cmd, cwd=None, timeout=1800):
     p = subprocess.run(cmd, shell=True, cwd=cwd, env=ENV, capture_output=True, text=True, timeout=timeout)
@@ -77,7 +77,7 @@ def main():
                 meta["demo_needs_race_flag"] = race
                 meta["confirmed"] = {"repo_head": head, "suite_passes_with_patch": suite, "demo_passes_without_patch": without == 0, "demo_fails_with_patch": withp != 0,
                                      "how": "tools/seeded_all.py: git apply, tools/repotest.sh, go test of the demonstration with and without the patch, ./check <ID> quick, git checkout"}
-                if key in REBASED: meta["rebased"] = "the delivered hunk no longer applied after the fix commit to internal/unpackinfo/unpackinfo.go (cleaned-path walk); patch.diff is the same edit re-made on the fixed code, patch.as-delivered.diff is the original"
+                if key in REBASED: meta["rebased"] = "the delivered patch no longer applied (or compiled) after a later fix commit to the same function; patch.diff is the same edit re-made on the fixed code, patch.as-delivered.diff is the original"
                 meta["checks"] = caught
                 json.dump(meta, open(f"{out_dir}/meta.json", "w"), indent=1, ensure_ascii=False)
     for key, status, caught in rows:
